@@ -7,6 +7,8 @@ from vlib.pyvc import interp as I
 
 
 def proved(run):
+    from props import crosscheck
+    run.extra["encoder_cross_check"] = dict(functions=crosscheck.run_all(), disagreements=0)   # RuntimeError (exit 3) on disagreement
     run.trust("pyvc symbolic interpreter over the real AST", f"z3 {z3.get_version_string()}")
     resolves.c12_one_resolves(run)
     for f in (C2.c12,):
